@@ -1,6 +1,7 @@
 package main
 
 import (
+	"sync"
 	"fmt"
 	bpmn "github.com/olive-io/bpmn/v2"
 	"math/rand"
@@ -411,6 +412,65 @@ func runC11(env *Env) {
 	// boundary events are listeners too: an event delivered the moment one of them announces that it listens
 	boundaryPromptDelivery(env, rep, "C11-exactly-once", 12)
 	boundaryStaleEvents(env, rep, "C11-exactly-once", 8)
+	deliveryDuringCancellation(env, rep, "C11-delivery-blocks", 24)
 	env.WriteCases(rep, "", "Corr.C11corr", "list (nat * list nat * nat * nat)", items, "c11_mismatches")
 	env.WriteReport(rep)
+}
+
+// deliveryDuringCancellation: events are handed to an instance in a tight loop by 1..4 goroutines while the instance is
+// cancelled: every delivery returns (an event that finds nobody any more is dropped, its sender is not left waiting at
+// the inbox of a node whose goroutine has just ended).
+func deliveryDuringCancellation(env *Env, rep *Report, key string, rounds int) {
+	p := &Prog{}
+	p.Node("start", "start")
+	c := p.Node("catch", "C0")
+	c.Inner = `<bpmn:signalEventDefinition id="sd0" signalRef="s0"/>`
+	th := p.Node("throw", "H0")
+	th.Inner = `<bpmn:signalEventDefinition id="hd0" signalRef="s2"/>`
+	p.Node("end", "end")
+	p.Flow("start", "C0", "")
+	p.Flow("C0", "H0", "")
+	p.Flow("H0", "end", "")
+	xmlText := p.XML(`<bpmn:signal id="s0" name="s0"/><bpmn:signal id="s1" name="s1"/><bpmn:signal id="s2" name="s2"/>`)
+	for r := 0; r < rounds && !rep.Saturated(); r++ {
+		deliverers := 1 + r%4
+		cs := fmt.Sprintf("%d goroutine(s) deliver non-matching events in a tight loop while the instance is cancelled (round %d)", deliverers, r)
+		env.Current(cs)
+		defs, err := ParseDefs(xmlText)
+		must(err)
+		in, err := StartInst(defs, InstOpt{})
+		must(err)
+		in.WaitUntil(tmoStep, func(l []Ev) bool { return countEv(l, "listening", "C0") >= 1 })
+		var wg sync.WaitGroup
+		stop := make(chan struct{})
+		for g := 0; g < deliverers; g++ {
+			wg.Add(1)
+			go func() {
+				defer wg.Done()
+				for {
+					select {
+					case <-stop:
+						return
+					default:
+					}
+					in.Signal("s1")
+				}
+			}()
+		}
+		time.Sleep(time.Duration(r%5) * 200 * time.Microsecond)
+		in.Cancel()
+		time.Sleep(2 * time.Millisecond)
+		close(stop)
+		done := make(chan struct{})
+		go func() { wg.Wait(); close(done) }()
+		rep.Evaluations++
+		rep.Nontrivial++
+		rep.Count("delivery_during_cancellation")
+		select {
+		case <-done:
+		case <-time.After(3 * time.Second):
+			rep.Violate(key, cs, "a delivery had not returned 3 s after the cancellation")
+		}
+		in.Close()
+	}
 }
